@@ -24,13 +24,13 @@ Definition is_struct (e : op) : bool :=
 (* operators on which the rules are claimed: Dense of any shape, sums of equal shapes, square blocks / factors,
    generic sub-operators well-formed (so that mm_den applies), square and non-empty.  (A KronSum INSIDE a generic
    operator is excluded through wf: Op.v has no product theorem for KronSum yet.) *)
-Fixpoint dwf (e : op) : bool :=
+Fixpoint dwf (df : dflags) (e : op) : bool :=
   match e with
   | Dense _ | Ident _ | Diag _ _ | Scal _ _ => true
-  | Sum ms => negb (Nat.eqb (length ms) 0) && forallb dwf ms && forallb (fun s => shp_eqb s (hd (0,0)%nat (map shape ms))) (map shape ms)
-  | BDiag ms => forallb (fun mc => dwf (fst mc) && Nat.eqb (fst (shape (fst mc))) (snd (shape (fst mc)))) ms
-  | Kron ms => forallb (fun m => dwf m && Nat.eqb (fst (shape m)) (snd (shape m)) && (0 <? fst (shape m))%nat) ms
-  | KronSum ms => negb (Nat.eqb (length ms) 0) && forallb (fun m => dwf m && Nat.eqb (fst (shape m)) (snd (shape m)) && (0 <? fst (shape m))%nat) ms
+  | Sum ms => negb (Nat.eqb (length ms) 0) && forallb (dwf df) ms && forallb (fun s => shp_eqb s (hd (0,0)%nat (map shape ms))) (map shape ms)
+  | BDiag ms => forallb (fun mc => dwf df (fst mc) && (d_bd_refuse df || Nat.eqb (fst (shape (fst mc))) (snd (shape (fst mc))))) ms
+  | Kron ms => forallb (fun m => dwf df m && (d_kron_refuse df || Nat.eqb (fst (shape m)) (snd (shape m))) && (0 <? fst (shape m))%nat) ms
+  | KronSum ms => negb (Nat.eqb (length ms) 0) && forallb (fun m => dwf df m && Nat.eqb (fst (shape m)) (snd (shape m)) && (0 <? fst (shape m))%nat) ms
   | _ => wf e && Nat.eqb (fst (shape e)) (snd (shape e)) && (0 <? fst (shape e))%nat
   end.
 
@@ -233,16 +233,16 @@ Lemma in_rep {A} mu (x y : A) : In x (rep mu y) -> x = y.
 Proof. induction mu; cbn [rep In]; [tauto|]. intros [H|H]; auto. Qed.
 
 (* ===== the structural rules return the diagonal of the represented matrix (or refuse) ===== *)
-Theorem diag_rule_agrees df B al : (1 <= B)%nat -> forall (e : op) k d, dwf e = true -> diag_rule df B al e k = inr d ->
+Theorem diag_rule_agrees df B al : (1 <= B)%nat -> forall (e : op) k d, dwf df e = true -> diag_rule df B al e k = inr d ->
   d = true_diag (fst (shape e)) (snd (shape e)) (den e) k.
 Proof.
   intros HB.
-  assert (G : forall e : op, dwf e = (wf e && Nat.eqb (fst (shape e)) (snd (shape e)) && (0 <? fst (shape e))%nat) ->
+  assert (G : forall e : op, dwf df e = (wf e && Nat.eqb (fst (shape e)) (snd (shape e)) && (0 <? fst (shape e))%nat) ->
               (forall k, diag_rule df B al e k = generic_diag df B al e k) ->
-              forall k d, dwf e = true -> diag_rule df B al e k = inr d -> d = true_diag (fst (shape e)) (snd (shape e)) (den e) k).
+              forall k d, dwf df e = true -> diag_rule df B al e k = inr d -> d = true_diag (fst (shape e)) (snd (shape e)) (den e) k).
   { intros e E1 E2 k d Hd Hr. rewrite E1 in Hd. apply andb_prop in Hd as [Hd H3]. apply andb_prop in Hd as [H1 H2].
     rewrite E2 in Hr. eapply generic_agrees; eauto. }
-  apply (op_ind2 (fun e => forall k d, dwf e = true -> diag_rule df B al e k = inr d -> d = true_diag (fst (shape e)) (snd (shape e)) (den e) k)).
+  apply (op_ind2 (fun e => forall k d, dwf df e = true -> diag_rule df B al e k = inr d -> d = true_diag (fst (shape e)) (snd (shape e)) (den e) k)).
   - (* Dense *) intros a k d _ H. cbn [diag_rule] in H. injection H as <-. reflexivity.
   - (* Diag *) intros n d0 k d _ H. cbn [diag_rule shape den fst snd] in *. destruct (k =? 0)%Z eqn:E.
     + apply Z.eqb_eq in E. subst k. injection H as <-. rewrite true_diag_0. apply map_ext. intros i. rewrite delta_eq by reflexivity. ring.
@@ -254,7 +254,7 @@ Proof.
   - (* Sum *) intros ms HF k d Hd H. cbn [dwf] in Hd. apply andb_prop in Hd as [Hd Hsh]. apply andb_prop in Hd as [Hne Hds].
     rewrite diag_rule_Sum in H. destruct ms as [|m l]; [discriminate Hne|].
     set (s0 := hd (0,0)%nat (map shape (m :: l))) in *.
-    assert (Hall : forall m', In m' (m :: l) -> shape m' = (fst s0, snd s0) /\ dwf m' = true).
+    assert (Hall : forall m', In m' (m :: l) -> shape m' = (fst s0, snd s0) /\ dwf df m' = true).
     { intros m' Hm'. rewrite forallb_forall in Hds, Hsh. split; [|apply Hds; exact Hm'].
       specialize (Hsh (shape m') (in_map shape _ _ Hm')). unfold shp_eqb in Hsh. apply andb_prop in Hsh as [A B']. apply Nat.eqb_eq in A, B'.
       destruct (shape m'); cbn [fst snd] in *; congruence. }
@@ -269,24 +269,30 @@ Proof.
       pose proof (HF m' (or_intror Hm') k d' Dm' Hd') as Hx. rewrite Sm' in Hx. exact Hx.
   - (* Prod *) intros ms _. apply G; reflexivity.
   - (* Kron *) intros ms HF k d Hd H. cbn [dwf] in Hd. rewrite diag_rule_Kron in H. destruct (k =? 0)%Z eqn:E; [|discriminate]. apply Z.eqb_eq in E. subst k.
-    destruct (d_kron_refuse df && negb (forallb sqb ms)); [discriminate|].
+    destruct (d_kron_refuse df && negb (forallb sqb ms)) eqn:Eref; [discriminate|].
     destruct (kr_go (fun m => diag_rule df B al m 0) ms) as [er|ds] eqn:Eg; [discriminate|]. injection H as <-.
     rewrite Forall_forall in HF. rewrite forallb_forall in Hd.
+    assert (Hsqm : forall m, In m ms -> Nat.eqb (fst (shape m)) (snd (shape m)) = true).
+    { intros m Hm. specialize (Hd m Hm). apply andb_prop in Hd as [Hd _]. apply andb_prop in Hd as [_ H2]. apply orb_prop in H2 as [H2|H2]; [|exact H2].
+      rewrite H2 in Eref. cbn [andb] in Eref. apply negb_false_iff in Eref. rewrite forallb_forall in Eref. apply (Eref m Hm). }
     destruct (kr_go_spec (fun m => diag_rule df B al m 0) ms ds) as (K1 & K2 & K3); [|exact Eg|].
-    { intros m Hm. specialize (Hd m Hm). apply andb_prop in Hd as [Hd H3]. apply andb_prop in Hd as [H1 H2].
+    { intros m Hm. pose proof (Hsqm m Hm) as H2. specialize (Hd m Hm). apply andb_prop in Hd as [Hd H3]. apply andb_prop in Hd as [H1 _].
       apply Nat.eqb_eq in H2. apply Nat.ltb_lt in H3. split; [exact H2|]. split; [exact H3|]. intros d Hdm. apply (HF m Hm 0%Z d H1 Hdm). }
     cbv zeta in K1, K2, K3. cbn [shape den]. rewrite (kshape_kronR ms). cbn [fst snd]. fold (facof (R:=R)).
     rewrite <- K1, true_diag_0. exact K3.
   - (* BDiag *) intros ms HF k d Hd H. cbn [dwf] in Hd. rewrite diag_rule_BDiag in H. destruct (k =? 0)%Z eqn:E; [|discriminate]. apply Z.eqb_eq in E. subst k.
-    destruct (d_bd_refuse df && negb (forallb (fun mc => sqb (fst mc)) ms)); [discriminate|].
+    destruct (d_bd_refuse df && negb (forallb (fun mc => sqb (fst mc)) ms)) eqn:Eref; [discriminate|].
     rewrite Forall_forall in HF. rewrite forallb_forall in Hd.
+    assert (Hsqm : forall mc, In mc ms -> fst (shape (fst mc)) = snd (shape (fst mc))).
+    { intros mc Hmc. apply Nat.eqb_eq. specialize (Hd mc Hmc). apply andb_prop in Hd as [_ H2]. apply orb_prop in H2 as [H2|H2]; [|exact H2].
+      rewrite H2 in Eref. cbn [andb] in Eref. apply negb_false_iff in Eref. rewrite forallb_forall in Eref. apply (Eref mc Hmc). }
     apply bd_go_spec in H.
     + assert (Hsq : forall b, In b (blocks ms) -> fst (fst b) = snd (fst b)).
       { intros b Hb. unfold blocks in Hb. apply in_concat in Hb as (lb & Hlb & Hb). apply in_map_iff in Hlb as (mc & <- & Hmc).
-        apply in_rep in Hb. subst b. cbn [fst]. specialize (Hd mc Hmc). apply andb_prop in Hd as [_ H2]. apply Nat.eqb_eq in H2. exact H2. }
+        apply in_rep in Hb. subst b. cbn [fst]. exact (Hsqm mc Hmc). }
       destruct (bd_diag (blocks ms) Hsq) as [D1 D2].
       cbn [shape den]. rewrite (bshape_blocks ms). cbn [fst snd]. fold (blocks ms). rewrite <- D2, true_diag_0, D1. exact H.
-    + intros mc Hmc. specialize (Hd mc Hmc). apply andb_prop in Hd as [H1 H2]. apply Nat.eqb_eq in H2. split; [exact H2|].
+    + intros mc Hmc. pose proof (Hsqm mc Hmc) as H2. specialize (Hd mc Hmc). apply andb_prop in Hd as [H1 _]. split; [exact H2|].
       intros d' Hd'. apply (HF mc Hmc 0%Z d' H1 Hd').
   - (* Transp *) intros a _. apply G; reflexivity.
   - (* Adj *) intros a _. apply G; reflexivity.
@@ -299,7 +305,7 @@ Proof.
     rewrite diag_rule_KronSum in H. destruct (k =? 0)%Z eqn:E; [|discriminate]. apply Z.eqb_eq in E. subst k.
     destruct (kr_go (fun m => diag_rule df B al m 0) ms) as [er|ds] eqn:Eg; [discriminate|]. injection H as <-.
     rewrite Forall_forall in HF. rewrite forallb_forall in Hd.
-    assert (Hall : forall m, In m ms -> dwf m = true /\ fst (shape m) = snd (shape m) /\ (0 < fst (shape m))%nat).
+    assert (Hall : forall m, In m ms -> dwf df m = true /\ fst (shape m) = snd (shape m) /\ (0 < fst (shape m))%nat).
     { intros m Hm. specialize (Hd m Hm). apply andb_prop in Hd as [Hd H3]. apply andb_prop in Hd as [H1 H2].
       apply Nat.eqb_eq in H2. apply Nat.ltb_lt in H3. auto. }
     assert (Hds : ds = map dg (map facof ms)).
@@ -314,13 +320,19 @@ Proof.
   - (* ConcatV *) intros ms _. apply G; reflexivity.
 Qed.
 
+(* the repaired rules refuse non-square factors / blocks *)
+Lemma kron_refuses_nonsquare df B al ms : d_kron_refuse df = true -> forallb sqb ms = false -> diag_rule df B al (Kron ms) 0 = inl DAssert.
+Proof. intros H1 H2. rewrite diag_rule_Kron. cbn [Z.eqb]. rewrite H1, H2. reflexivity. Qed.
+Lemma bdiag_refuses_nonsquare df B al ms : d_bd_refuse df = true -> forallb (fun mc => sqb (fst mc)) ms = false -> diag_rule df B al (BDiag ms) 0 = inl DAssert.
+Proof. intros H1 H2. rewrite diag_rule_BDiag. cbn [Z.eqb]. rewrite H1, H2. reflexivity. Qed.
+
 (* ---------- trace *)
-Fixpoint tdwf (e : op) : bool :=
+Fixpoint tdwf (df : dflags) (e : op) : bool :=
   match e with
-  | Kron ms => forallb (fun m => tdwf m && Nat.eqb (fst (shape m)) (snd (shape m)) && (0 <? fst (shape m))%nat) ms
-  | _ => dwf e && Nat.eqb (fst (shape e)) (snd (shape e))
+  | Kron ms => forallb (fun m => tdwf df m && Nat.eqb (fst (shape m)) (snd (shape m)) && (0 <? fst (shape m))%nat) ms
+  | _ => dwf df e && Nat.eqb (fst (shape e)) (snd (shape e))
   end.
-Lemma generic_trace_correct df B al (e : op) t : (1 <= B)%nat -> dwf e = true -> generic_trace df B al e = inr t ->
+Lemma generic_trace_correct df B al (e : op) t : (1 <= B)%nat -> dwf df e = true -> generic_trace df B al e = inr t ->
   t = true_trace (fst (shape e)) (den e).
 Proof. intros HB Hd. unfold generic_trace. destruct (Nat.eqb_spec (fst (shape e)) (snd (shape e))) as [Hsq|]; [|discriminate].
   destruct (diag_rule df B al e 0) as [er|d] eqn:E; [discriminate|]. intros H; injection H as <-.
@@ -356,14 +368,14 @@ Proof. revert t. induction l as [|m l IH]; intros t Hl.
     split; [cbn [kron2 fr fc facof]; rewrite Hsq, I1; reflexivity|]. split; [cbn [kron2 fr facof]; apply Nat.mul_pos_pos; assumption|].
     rewrite trace_kron2; [|cbn [facof fr fc]; exact Hsq|exact I1|exact I2]. rewrite I3, (Hm tm eq_refl). reflexivity. Qed.
 
-Theorem trace_correct df B al : (1 <= B)%nat -> forall (e : op) t, tdwf e = true -> trace_rule df B al e = inr t ->
+Theorem trace_correct df B al : (1 <= B)%nat -> forall (e : op) t, tdwf df e = true -> trace_rule df B al e = inr t ->
   t = true_trace (fst (shape e)) (den e).
 Proof.
   intros HB.
-  assert (G : forall e : op, tdwf e = (dwf e && Nat.eqb (fst (shape e)) (snd (shape e))) -> trace_rule df B al e = generic_trace df B al e ->
-              forall t, tdwf e = true -> trace_rule df B al e = inr t -> t = true_trace (fst (shape e)) (den e)).
+  assert (G : forall e : op, tdwf df e = (dwf df e && Nat.eqb (fst (shape e)) (snd (shape e))) -> trace_rule df B al e = generic_trace df B al e ->
+              forall t, tdwf df e = true -> trace_rule df B al e = inr t -> t = true_trace (fst (shape e)) (den e)).
   { intros e E1 E2 t Ht Hr. rewrite E1 in Ht. apply andb_prop in Ht as [H1 _]. rewrite E2 in Hr. eapply generic_trace_correct; eauto. }
-  apply (op_ind2 (fun e => forall t, tdwf e = true -> trace_rule df B al e = inr t -> t = true_trace (fst (shape e)) (den e)));
+  apply (op_ind2 (fun e => forall t, tdwf df e = true -> trace_rule df B al e = inr t -> t = true_trace (fst (shape e)) (den e)));
     try (intros; eapply G; eauto; reflexivity).
   (* Kron *) intros ms HF t Ht H. cbn [tdwf] in Ht. rewrite trace_rule_Kron in H.
   rewrite Forall_forall in HF. rewrite forallb_forall in Ht.
